@@ -299,7 +299,10 @@ private:
         } else if (w.producer) {
             static const char* modes[] = {"ORAT", "WRAT", "GRAT", "LRAT", "RESV", "BHP", "GRUP"};
             std::string mode = modes[rng.below(7)];
-            s << "WCONPROD\n " << q(w.name) << " '" << (rng.chance(0.8) ? "OPEN" : (rng.chance(0.5) ? "SHUT" : "STOP")) << "' '" << mode << "' " << rate() << " " << rate() << " " << rate() << " " << rate() << " " << rate() << " " << bhpLow();
+            // the limit the mode names is given; each of the others is left out (defaulted) in 35 % of the records, so that the set of
+            // active limits of a well varies
+            auto opt = [&](const char* need, const std::string& v) { return (mode == need || !rng.chance(0.35)) ? v : std::string("1*"); };
+            s << "WCONPROD\n " << q(w.name) << " '" << (rng.chance(0.8) ? "OPEN" : (rng.chance(0.5) ? "SHUT" : "STOP")) << "' '" << mode << "' " << opt("ORAT", rate()) << " " << opt("WRAT", rate()) << " " << opt("GRAT", rate()) << " " << opt("LRAT", rate()) << " " << opt("RESV", rate()) << " " << ((M->hasVfp || mode == "BHP" || !rng.chance(0.25)) ? bhpLow() : std::string("1*"));
             if (M->hasVfp && rng.chance(0.3)) s << " " << fmtd(10 + rng.below(20)) << " " << M->vfpIds[rng.below(M->vfpIds.size())];
             s << " /\n/\n";
             add(st, "WCONPROD", s.str());
@@ -308,7 +311,9 @@ private:
             add(st, "WCONINJH", s.str());
         } else {
             static const char* modes[] = {"RATE", "RESV", "BHP", "GRUP"};
-            s << "WCONINJE\n " << q(w.name) << " " << q(w.injPhase) << " '" << (rng.chance(0.85) ? "OPEN" : "SHUT") << "' '" << modes[rng.below(4)] << "' " << rate() << " " << rate() << " " << bhpHigh() << " /\n/\n";
+            const std::string imode = modes[rng.below(4)];
+            auto opt = [&](const char* need, const std::string& v) { return (imode == need || !rng.chance(0.35)) ? v : std::string("1*"); };
+            s << "WCONINJE\n " << q(w.name) << " " << q(w.injPhase) << " '" << (rng.chance(0.85) ? "OPEN" : "SHUT") << "' '" << imode << "' " << opt("RATE", rate()) << " " << opt("RESV", rate()) << " " << opt("BHP", bhpHigh()) << " /\n/\n";
             add(st, "WCONINJE", s.str());
         }
         w.hasControl = true;
@@ -418,7 +423,7 @@ private:
             if (rng.chance(0.4)) { std::string g = "G" + std::to_string(nWellGroups() + 1); M->groups.push_back({g, parent}); s << "GRUPTREE\n " << q(g) << " " << q(parent) << " /\n/\n"; }
             else { std::string g = wellGroup(); for (auto& gp : M->groups) if (gp.first == g) gp.second = parent; s << "GRUPTREE\n " << q(g) << " " << q(parent) << " /\n/\n"; }
             add(st, "GRUPTREE", s.str()); return; }
-        case 9: { static const char* m[] = {"NONE", "ORAT", "WRAT", "GRAT", "LRAT", "FLD"}; std::string mode = m[rng.below(6)]; s << "GCONPROD\n " << q(anyGroup(mode != "FLD")) << " '" << mode << "' " << rate() << " " << rate() << " " << rate() << " " << rate() << " '" << (rng.chance(0.5) ? "RATE" : "NONE") << "' " << (rng.chance(0.5) ? "'YES'" : "'NO'") << " /\n/\n"; add(st, "GCONPROD", s.str()); return; }
+        case 9: { static const char* m[] = {"NONE", "ORAT", "WRAT", "GRAT", "LRAT", "FLD"}; std::string mode = m[rng.below(6)]; auto opt = [&](const char* need, const std::string& v) { return (mode == need || ((mode == "NONE" || mode == "FLD") && std::string(need) == "ORAT") || !rng.chance(0.35)) ? v : std::string("1*"); }; s << "GCONPROD\n " << q(anyGroup(mode != "FLD")) << " '" << mode << "' " << opt("ORAT", rate()) << " " << opt("WRAT", rate()) << " " << opt("GRAT", rate()) << " " << opt("LRAT", rate()) << " '" << (rng.chance(0.5) ? "RATE" : "NONE") << "' " << (rng.chance(0.5) ? "'YES'" : "'NO'") << " /\n/\n"; add(st, "GCONPROD", s.str()); return; }
         case 10: { static const char* m[] = {"NONE", "RATE", "RESV", "REIN", "VREP"}; const int md = (int)rng.below(5);
             // items 4-7 (surface rate, reservoir rate, re-injection fraction, voidage fraction): the one the mode needs is given, each of
             // the others is left out in 40 % of the records (which limits are active is part of the group's control set)
